@@ -18,6 +18,8 @@
 (*   corrupt  [kind |-> "none"] | [kind |-> "cnt", row |-> i, to |-> n]     *)
 (*            (field count of row i replaced by n)                          *)
 (*            | [kind |-> "trunc", at |-> p] (stream ends after p cells)    *)
+(*            | [kind |-> "len", row |-> i, col |-> j] (length of that      *)
+(*              field replaced by one far beyond what the stream holds)     *)
 (*   cuts     set of cell positions after which a new chunk starts          *)
 (***************************************************************************)
 EXTENDS Integers, Sequences, FiniteSets, TLC
@@ -25,6 +27,8 @@ EXTENDS Integers, Sequences, FiniteSets, TLC
 CONSTANTS NCols    \* declared columns
 
 Cell(u, v) == [u |-> u, v |-> v]
+
+HugeLen == 1000000
 
 FieldCells(f, r, j) ==
     IF f.c = "null" THEN <<Cell("len1", -1), Cell("len2", 0)>>
@@ -34,14 +38,21 @@ FieldCells(f, r, j) ==
 RECURSIVE Concat(_)
 Concat(ss) == IF ss = <<>> THEN <<>> ELSE Head(ss) \o Concat(Tail(ss))
 
-RowCells(row, r, cnt) ==
-    <<Cell("cnt1", cnt), Cell("cnt2", 0)>> \o Concat([j \in DOMAIN row |-> FieldCells(row[j], r, j)])
+\* the cells of a field whose length word was replaced by a huge value
+HugeField(f, r, j) == <<Cell("len1", HugeLen), Cell("len2", 0)>> \o SubSeq(FieldCells(f, r, j), 3, Len(FieldCells(f, r, j)))
+
+RowCellsC(row, r, cnt, badcol) ==
+    <<Cell("cnt1", cnt), Cell("cnt2", 0)>>
+    \o Concat([j \in DOMAIN row |-> IF j = badcol THEN HugeField(row[j], r, j) ELSE FieldCells(row[j], r, j)])
+RowCells(row, r, cnt) == RowCellsC(row, r, cnt, 0)
+
+BadCol(sc, r) == IF sc.corrupt.kind = "len" /\ sc.corrupt.row = r THEN sc.corrupt.col ELSE 0
 
 CountOf(sc, r) == IF sc.corrupt.kind = "cnt" /\ sc.corrupt.row = r THEN sc.corrupt.to ELSE Len(sc.table[r])
 
 FullStream(sc) ==
     (IF sc.hdr THEN <<Cell("sig1", 0), Cell("sig2", 0), Cell("flags", 0), Cell("ext", 0)>> ELSE <<>>)
-    \o Concat([r \in DOMAIN sc.table |-> RowCells(sc.table[r], r, CountOf(sc, r))])
+    \o Concat([r \in DOMAIN sc.table |-> RowCellsC(sc.table[r], r, CountOf(sc, r), BadCol(sc, r))])
     \o (IF sc.trailer THEN <<Cell("cnt1", -1), Cell("cnt2", 0)>> ELSE <<>>)
 
 Stream(sc) == IF sc.corrupt.kind = "trunc" THEN SubSeq(FullStream(sc), 1, sc.corrupt.at) ELSE FullStream(sc)
@@ -72,7 +83,7 @@ BadRow(sc) ==
 \* number of complete good rows delivered
 GoodRows(sc) ==
     LET n == Len(sc.table) IN
-    IF sc.corrupt.kind = "cnt"
+    IF sc.corrupt.kind \in {"cnt", "len"}
     THEN sc.corrupt.row - 1
     ELSE IF sc.corrupt.kind = "trunc"
     THEN Cardinality({r \in 1..n : UpTo(sc, r) <= sc.corrupt.at})
@@ -82,6 +93,7 @@ ExpectedEnd(sc) ==
     LET n == Len(sc.table) IN
     IF sc.corrupt.kind = "cnt"
     THEN IF sc.corrupt.to = -1 THEN "eof" ELSE "err"
+    ELSE IF sc.corrupt.kind = "len" THEN "err"      \* the field is truncated: the stream ends long before
     ELSE IF sc.corrupt.kind = "trunc"
     THEN IF sc.corrupt.at = 0 THEN "eof"
          ELSE IF sc.corrupt.at < HdrLen(sc) THEN "err"                       \* inside the header
@@ -158,10 +170,12 @@ Lenf ==
     /\ status = "run" /\ pc = "len" /\ Have
     /\ buf' = SubSeq(buf, 3, Len(buf))
     /\ LET n == buf[1].v IN
-       IF n = -1 THEN Finish(Append(cur, [c |-> "null"])) /\ UNCHANGED k
+       IF buf[1].u # "len1" THEN status' = "err" /\ UNCHANGED <<pc, cur, out, k>>
+       ELSE IF n = -1 THEN Finish(Append(cur, [c |-> "null"])) /\ UNCHANGED k
        ELSE IF n = 0 THEN Finish(Append(cur, [c |-> "e"])) /\ UNCHANGED k
        ELSE k' = n /\ pc' = "val" /\ UNCHANGED <<cur, out>>
-    /\ UNCHANGED <<sc, chunks, status>>
+    /\ UNCHANGED <<sc, chunks>>
+    /\ (buf[1].u = "len1" => UNCHANGED status)
 
 Val ==
     /\ status = "run" /\ pc = "val" /\ Have
